@@ -155,10 +155,8 @@ func (c *Ctx) subjectFieldsRec(fn *types.Func, subj int, visiting map[subjKey]bo
 			return
 		}
 		for _, e := range c.subjectFieldsRec(callee, s, visiting) {
-			via := e.Via
-			if via == "" {
-				via = funcKey(callee)
-			}
+			// Via names the first hop from the root function (what the root itself calls)
+			via := funcKey(callee)
 			events = append(events, fieldEvent{Field: e.Field, Pos: pos, Direct: false, Write: e.Write, Via: via, Panic: e.Panic || inPanic(pos)})
 		}
 	}
